@@ -33,6 +33,14 @@ def plan(plan, tier, seed):
     except AnchorLost as e:
         plan.anchor_errors.append((n6, str(e)))
     plan.dropped.append(vC18.output_cols_fn.__doc__.strip())
+    n7 = "C18.verus.TableAccessScalarF.solve"
+    plan.ob(n7, "verus", "proved", functions=["src/interpreter/src/stdlib/access/table.rs: TableAccessScalarF::solve"],
+            what="selecting ONE table row by a scalar index: the record holds, for every column, the element of exactly that row; an index that addresses no row (0, beyond the last row) is an error (kernel panic), never another row")
+    try:
+        plan.verus.append(VerusUnit("c18_scalar_row", vC18.scalar_row_unit(vlib.read_repo("src/interpreter/src/stdlib/access/table.rs")), {"table_row_by_scalar_index": n7}, ["canary_scalar_row"]))
+    except AnchorLost as e:
+        plan.anchor_errors.append((n7, str(e)))
+    plan.dropped.append(vC18.scalar_row_fn.__doc__.strip())
     n3 = "C18.verus.rows_match.all_common_columns"
     plan.ob(n3, "verus", "proved", functions=["rows_match"],
             what="two rows match iff they hold equal cells in EVERY pair of commonly named columns (for any number of common columns, including none)")
